@@ -294,6 +294,36 @@ example : Nng.PipelineSpec.pushJudge
      (.send none 0 ⟨[], [1]⟩ .inf, [.done 0 0 none false, .psend 0 ⟨[], [1]⟩]),
      (.sendDone 0 0, [.rv 0, .psend 0 ⟨[], [1]⟩])] ≠ none := by decide
 
+/-- FIFO admission of parked senders is checked: with sends 0 and 1 parked in this order, the judge
+    rejects the trace in which a new peer is handed the message of send 1 (as push.c does with
+    `nni_list_prepend` in `push0_sock_send`), and accepts the one that serves send 0 -/
+example : Nng.PipelineSpec.pushJudge
+    [(.openSock "push" false, [.rv 0]), (.send none 0 ⟨[], [1]⟩ .inf, []), (.send none 1 ⟨[], [2]⟩ .inf, []),
+     (.pipeAdd 81, [.pipe 0, .parm 0, .psend 0 ⟨[], [2]⟩, .done 1 0 none false])] ≠ none := by decide
+
+example : Nng.PipelineSpec.pushJudge
+    [(.openSock "push" false, [.rv 0]), (.send none 0 ⟨[], [1]⟩ .inf, []), (.send none 1 ⟨[], [2]⟩ .inf, []),
+     (.pipeAdd 81, [.pipe 0, .parm 0, .psend 0 ⟨[], [1]⟩, .done 0 0 none false])] = none := by decide
+
+/-- ... a parked sender that is cancelled leaves the order, and a send that completes in its own step is
+    not a parked sender -/
+example : Nng.PipelineSpec.pushJudge
+    [(.openSock "push" false, [.rv 0]), (.send none 0 ⟨[], [1]⟩ .inf, []), (.send none 1 ⟨[], [2]⟩ .inf, []),
+     (.cancel 0, [.done 0 20 none true]),
+     (.pipeAdd 81, [.pipe 0, .parm 0, .psend 0 ⟨[], [2]⟩, .done 1 0 none false])] = none := by decide
+
+/-- receive liveness is checked: two pipes each hold a message; the application takes the one of pipe 0;
+    the judge rejects the trace in which pipe 0 is not re-armed, and accepts the one in which it is -/
+example : Nng.PipelineSpec.pullJudge
+    [(.openSock "pull" false, [.rv 0]), (.pipeAdd 80, [.pipe 0, .parm 0]), (.pipeAdd 80, [.pipe 1, .parm 1]),
+     (.recvDone 0 (.ok [1]), [.rv 0]), (.recvDone 1 (.ok [2]), [.rv 0]),
+     (.recv none 0 .nb, [.done 0 0 (some ⟨[], [1]⟩) false])] ≠ none := by decide
+
+example : Nng.PipelineSpec.pullJudge
+    [(.openSock "pull" false, [.rv 0]), (.pipeAdd 80, [.pipe 0, .parm 0]), (.pipeAdd 80, [.pipe 1, .parm 1]),
+     (.recvDone 0 (.ok [1]), [.rv 0]), (.recvDone 1 (.ok [2]), [.rv 0]),
+     (.recv none 0 .nb, [.done 0 0 (some ⟨[], [1]⟩) false, .parm 0])] = none := by decide
+
 end Examples
 
 end Nng.C06
